@@ -77,6 +77,8 @@ func C05(c *Ctx) {
 	c.shareRule("C08", "C08-R4", "C05-R12", "the walk's record is complete and ordered: strides are only appended, and every reader of the record scans all of it (Walked.To included, from which hosts take the machine's next state)")
 	c.shareRule("C04", "C04-R3", "C05-R13", "each message at most once: the stride records the consumption of a message that was matched against, whether or not a branch was taken or failed")
 	c.shareRule("C06", "C06-R3", "C05-R14", "a step's effect is confined to what it returns: a script cannot change the step properties or bindings that the following steps of the walk (or the same messages delivered in another split) are given")
+	c.R.Rule("C05-R15", "E7", "hosts install and store a walk's end state whatever stopped the walk", 1)
+	c05HostsIgnoreStopReason(c, "C05-R15")
 	c.shareRule("C02", "C02-R8", "C05-R10", "absent bindings are matched as empty bindings: a machine without bindings still takes its pattern branches")
 	c.R.Rule("C05-R8", "E1", "Walk reads the batch of messages it is given and never writes it (hosts offer one batch to several machines and re-deliver sub-slices)", 1)
 	c.batchUntouched("C05-R8")
